@@ -396,16 +396,23 @@ def _extrapolate2d(y, total_padding, extrapolate_window=None):
 
     vander_x = np.polynomial.polynomial.polyvander(x, 1)
     vander_z = np.polynomial.polynomial.polyvander(z, 1)
-    pinv_top = np.linalg.pinv(
+
+    def _pinv(vander_section):
+        if vander_section.shape[0] == 1:
+            # just use the edge values rather than trying to fit a line, as done in 1D
+            return np.array([[1.], [0.]])
+        return np.linalg.pinv(vander_section)
+
+    pinv_top = _pinv(
         vander_x[total_padding[0]:-total_padding[0]][:extrapolate_windows[0][0]]
     )
-    pinv_bottom = np.linalg.pinv(
+    pinv_bottom = _pinv(
         vander_x[total_padding[0]:-total_padding[0]][-extrapolate_windows[0][1]:]
     )
-    pinv_left = np.linalg.pinv(
+    pinv_left = _pinv(
         vander_z[total_padding[1]:-total_padding[1]][:extrapolate_windows[1][0]]
     )
-    pinv_right = np.linalg.pinv(
+    pinv_right = _pinv(
         vander_z[total_padding[1]:-total_padding[1]][-extrapolate_windows[1][1]:]
     )
 
